@@ -47,6 +47,12 @@ Proof.
   rewrite graft_cons, lookup_set. destruct (path_eqb (base ++ p) q); [discriminate | exact IH].
 Qed.
 
+Lemma in_firstn {A} n : forall (l : list A) x, In x (firstn n l) -> In x l.
+Proof.
+  induction n as [|n IH]; intros l x Hx; [destruct Hx|]. destruct l as [|y l]; [destruct Hx|].
+  cbn [firstn] in Hx. destruct Hx as [<-|Hx]; [left; reflexivity | right; apply IH, Hx].
+Qed.
+
 Lemma set_fs_map st f : st_map (tr_set_fs st f) = st_map st.
 Proof. reflexivity. Qed.
 Lemma set_fs_fs st f : st_fs (tr_set_fs st f) = f.
@@ -103,7 +109,7 @@ Notation arch_hdr := (tr_arch_hdr ahdr).
 Lemma hdr_ok_tr e s : tr_subs_wf e -> In s (te_subs e) -> tr_hdr_ok1 ahdr aparse s ->
   hdr_ok (arch_hdr e) (parse_of (te_id e)) (tr_aentry s).
 Proof.
-  intros (Hs & _) Hin (Hp & Hnl & Hv). destruct (Hs s Hin) as (Hid & _ & Hhd & Hrel).
+  intros (Hs & _) Hin (Hp & Hnl & Hv & _). destruct (Hs s Hin) as (Hid & _ & Hhd & Hrel).
   destruct (te_rel s) as [|r0 rest] eqn:Er; [congruence|]. cbn [hd] in Hhd.
   assert (Eh : arch_hdr e (ae_meta (tr_aentry s)) = ahdr (tr_src s) (Z.of_N (te_size s))).
   { unfold tr_arch_hdr, tr_hdr_of, tr_aentry, tr_ameta, tr_src. cbn [ae_meta am_path am_dir am_size].
@@ -137,6 +143,26 @@ Proof.
   split; [exact Hc|]. repeat (split; [reflexivity|]).
   unfold te_size, te_data. cbn [te_isdir te_chunks]. unfold tr_arch_size.
   rewrite (size_ok (arch_hdr e) (tr_arch_entries e) (Forall_map_tr _ aentry_exact_tr)), Hc. lia.
+Qed.
+
+(* the stream consists of bytes when the contents and the encoded headers do *)
+Lemma arch_stream_bytes e : tr_subs_wf e -> (forall s, In s (te_subs e) -> tr_hdr_ok1 ahdr aparse s) ->
+  Forall (fun s => bytes_ok (te_data s) = true) (te_subs e) ->
+  bytes_ok (astream (arch_hdr e) (tr_arch_entries e)) = true.
+Proof.
+  intros (Hs & _) Hh Hb. unfold tr_arch_entries, astream. rewrite Forall_forall in Hb.
+  unfold bytes_ok. apply forallb_forall. intros x Hx. apply in_flat_map in Hx as (a & Ha & Hx).
+  apply in_map_iff in Ha as (s & <- & Hin). destruct (Hs s Hin) as (Hid & _ & Hhd & Hrel).
+  destruct (Hh s Hin) as (_ & _ & _ & Hbh).
+  assert (Eh : arch_hdr e (ae_meta (tr_aentry s)) = ahdr (tr_src s) (Z.of_N (te_size s))).
+  { destruct (te_rel s) as [|r0 rest] eqn:Er; [congruence|]. cbn [hd] in Hhd.
+    unfold tr_arch_hdr, tr_hdr_of, tr_aentry, tr_ameta, tr_src. cbn [ae_meta am_path am_dir am_size].
+    rewrite Er, <- Hhd, <- Hid. reflexivity. }
+  unfold astream1 in Hx. rewrite Eh in Hx. apply in_app_or in Hx as [Hx|[<-|Hx]].
+  - unfold bytes_ok in Hbh. rewrite forallb_forall in Hbh. apply Hbh, Hx.
+  - reflexivity.
+  - unfold apayload in Hx. destruct (ae_dir (tr_aentry s)); [destruct Hx|]. apply in_firstn in Hx.
+    cbn [tr_aentry ae_data] in Hx. specialize (Hb s Hin). unfold bytes_ok in Hb. rewrite forallb_forall in Hb. apply Hb, Hx.
 Qed.
 
 (* ---------- the receiver: the writer on the stream, cut in any way (C15_writer) ---------- *)
